@@ -24,24 +24,24 @@ def obs_invariants():
 
 # property -> what is run.  gated/free: (families, episodes quick, episodes thorough)
 PLAN = {
-    'C01': {'gated': (['basic', 'ctl', 'cancel', 'pool', 'batch', 'barrier'], 320, 6000), 'free': (['basic', 'ctl', 'pool'], 64, 1200), 'model': ['MC_core']},
-    'C02': {'gated': (['ctl', 'pool', 'basic', 'barrier', 'bind2'], 400, 6000), 'free': (['ctl', 'pool'], 64, 1200), 'model': ['MC_core']},
-    'C03': {'gated': (['basic', 'ctl', 'cancel', 'pool', 'barrier', 'batch'], 320, 6000), 'free': (['basic', 'ctl', 'pool', 'cancel'], 64, 1200), 'model': ['MC_core']},
-    'C05': {'gated': (['handle', 'basic', 'cancel', 'batch'], 320, 6000), 'free': (['handle', 'batch'], 64, 1200), 'model': ['MC_core']},
-    'C06': {'gated': (['barrier', 'ctl', 'cancel'], 320, 6000), 'free': (['barrier', 'ctl'], 64, 1200), 'model': ['MC_core']},
-    'C07': {'gated': (['handle', 'basic', 'batch'], 320, 6000), 'free': (['handle', 'batch'], 64, 1200), 'model': []},
-    'C08': {'gated': (['batch'], 320, 6000), 'free': (['batch'], 96, 2400), 'model': []},
-    'C09': {'gated': (['ctl', 'barrier'], 320, 6000), 'free': (['ctl'], 64, 1200), 'model': ['MC_core']},
-    'C10': {'gated': (['cancel', 'batch'], 320, 6000), 'free': (['cancel'], 64, 1200), 'model': ['MC_core']},
-    'C04': {'gated': (['basic', 'multi', 'barrier', 'cancel'], 320, 6000), 'free': (['basic'], 48, 800), 'model': []},
-    'C11': {'gated': (['adapter'], 300, 5000), 'free': (['adapter'], 48, 800), 'model': [], 'crash': (40, 600)},
-    'C12': {'gated': (['adapter'], 300, 5000), 'free': (['adapter'], 48, 800), 'model': []},
-    'C13': {'gated': (['dist', 'adapter'], 300, 5000), 'free': (['dist'], 64, 1000), 'model': []},
-    'C14': {'gated': (['life'], 200, 3000), 'free': (['life'], 48, 600), 'model': [], 'life_exhaustive': (3, 4)},
-    'C15': {'gated': (['multi'], 400, 6000), 'free': (['multi'], 32, 600), 'model': []},
-    'C16': {'gated': (['basic', 'handle', 'cancel', 'batch'], 320, 6000), 'free': (['basic', 'handle'], 96, 2400), 'model': ['MC_core']},
-    'C17': {'gated': (['basic', 'multi', 'cancel', 'ctl'], 320, 6000), 'free': (['basic', 'multi'], 64, 1200), 'model': []},
-    'C18': {'gated': (['pool', 'ctl'], 320, 6000), 'free': (['pool'], 64, 1200), 'model': []},
+    'C01': {'gated': (['basic', 'ctl', 'cancel', 'pool', 'batch', 'barrier'], 64, 750), 'free': (['basic', 'ctl', 'pool'], 64, 1200), 'model': ['MC_core']},
+    'C02': {'gated': (['ctl', 'pool', 'basic', 'barrier', 'bind2'], 80, 750), 'free': (['ctl', 'pool'], 64, 1200), 'model': ['MC_core']},
+    'C03': {'gated': (['basic', 'ctl', 'cancel', 'pool', 'barrier', 'batch'], 64, 750), 'free': (['basic', 'ctl', 'pool', 'cancel'], 64, 1200), 'model': ['MC_core']},
+    'C05': {'gated': (['handle', 'basic', 'cancel', 'batch'], 64, 750), 'free': (['handle', 'batch'], 64, 1200), 'model': ['MC_core']},
+    'C06': {'gated': (['barrier', 'ctl', 'cancel'], 64, 750), 'free': (['barrier', 'ctl'], 64, 1200), 'model': ['MC_core']},
+    'C07': {'gated': (['handle', 'basic', 'batch'], 64, 750), 'free': (['handle', 'batch'], 64, 1200), 'model': []},
+    'C08': {'gated': (['batch'], 64, 750), 'free': (['batch'], 96, 2400), 'model': []},
+    'C09': {'gated': (['ctl', 'barrier'], 64, 750), 'free': (['ctl'], 64, 1200), 'model': ['MC_core']},
+    'C10': {'gated': (['cancel', 'batch'], 64, 750), 'free': (['cancel'], 64, 1200), 'model': ['MC_core']},
+    'C04': {'gated': (['basic', 'multi', 'barrier', 'cancel'], 64, 750), 'free': (['basic'], 48, 800), 'model': []},
+    'C11': {'gated': (['adapter'], 60, 625), 'free': (['adapter'], 48, 800), 'model': [], 'crash': (40, 600)},
+    'C12': {'gated': (['adapter'], 60, 625), 'free': (['adapter'], 48, 800), 'model': []},
+    'C13': {'gated': (['dist', 'adapter'], 60, 625), 'free': (['dist'], 64, 1000), 'model': []},
+    'C14': {'gated': (['life'], 48, 375), 'free': (['life'], 48, 600), 'model': [], 'life_exhaustive': (3, 4)},
+    'C15': {'gated': (['multi'], 80, 750), 'free': (['multi'], 32, 600), 'model': []},
+    'C16': {'gated': (['basic', 'handle', 'cancel', 'batch'], 64, 750), 'free': (['basic', 'handle'], 96, 2400), 'model': ['MC_core']},
+    'C17': {'gated': (['basic', 'multi', 'cancel', 'ctl'], 64, 750), 'free': (['basic', 'multi'], 64, 1200), 'model': []},
+    'C18': {'gated': (['pool', 'ctl'], 64, 750), 'free': (['pool'], 64, 1200), 'model': []},
 }
 
 
@@ -50,10 +50,14 @@ MODEL_PLAN = {
     'C01': (['barrier', 'conc2'], ['cancel', 'stop', 'restart', 'tune', 'purge', 'ratio', 'expiry', 'prio'], ['barrier']),
     'C02': (['conc2', 'pause'], ['tune', 'restart', 'stop', 'ratio'], []),
     'C03': (['purge', 'expiry'], ['barrier', 'stop', 'restart', 'cancel2', 'tune', 'was'], ['barrier', 'pause', 'purge', 'cancel']),
-    'C05': (['cancel', 'purge'], ['cancel2', 'conc2'], ['cancel']),
+    'C05': (['cancel', 'result'], ['purge', 'cancel2', 'conc2', 'batch', 'batchpurge'], ['cancel']),
+    'C07': (['result', 'batch0'], ['batch', 'batchpurge'], []),
+    'C08': (['batch', 'batch0'], ['batchpurge'], ['batch']),
     'C06': (['barrier', 'pause'], ['purge', 'stop2', 'pause2', 'was', 'cancel'], ['pause', 'barrier']),
     'C09': (['pause'], ['pause2', 'stop', 'restart', 'was'], []),
     'C10': (['cancel', 'purge'], ['qclose', 'cancel2'], []),
+    'C11': (['adapter', 'crash', 'adapterfault'], ['crash2'], ['crash']),
+    'C12': (['adapterfault'], ['adapter'], []),
     'C14': (['ctx0', 'pause'], ['ctx', 'stop', 'stop2', 'restart', 'was', 'pause2'], []),
     'C16': (['barrier', 'cancel'], ['conc2', 'purge', 'prio'], []),
     'C17': (['conc2', 'pause'], ['tune'], []),
@@ -388,6 +392,27 @@ def check_property(pid, tier, seed):
                     cp['sched'] = {'kind': 'random', 'seed': rng.randrange(1 << 30)}
                     gated.append(cp)
         eps, crashes = vlib.run_episodes(binary, gated, scratch, gomaxprocs=1, tag='g')
+        # ---- systematic windows: for every label a base execution visited, one more execution of the same program in which
+        # any goroutine arriving at that label is held there until nothing else can run
+        skip = {'call', 'ret', 'c.start', 'quiescent', 'notify.sent', 'notify.dropped', 'free.push', 'free.stop', 'sched'}
+        holds = []
+        for e in eps:
+            if e['prog']['family'].startswith('m1:') or e['end']['result'] != 'ok':
+                continue
+            labels = sorted(set(x['ev'] for x in e['events'] if x['ev'] not in skip and not x['ev'].startswith('ad.')))
+            for li, lab in enumerate(labels):
+                hp = json.loads(json.dumps(e['prog']))
+                hp['id'] = '%sh%d' % (e['prog']['id'], li)
+                hp['sched'] = {'kind': 'hold', 'label': lab, 'nth': rng.choice([0, 0, 0, 1, 2]), 'seed': rng.randrange(1 << 30)}
+                holds.append(hp)
+        cap = 1400 if tier == 'quick' else 24000
+        if len(holds) > cap:
+            rng.shuffle(holds)
+            holds = holds[:cap]
+        heps, hcr = vlib.run_episodes(binary, holds, scratch, gomaxprocs=1, tag='h')
+        cov['hold_variants'] = len(heps)
+        eps += heps
+        crashes += hcr
         if plan.get('crash'):
             # ... and bind a fresh worker to what the adapter still holds (pending + delivered-but-unacknowledged)
             rec = [recovery_prog(e) for e in eps if e['end']['result'] == 'cut']
